@@ -43,6 +43,7 @@ from ..cip import (
     USINT,
 )
 from ..const import PRIORITY, TIMEOUT_TICKS, STRUCTURE_READ_REPLY
+from ..exceptions import RequestError
 
 __all__ = [
     "wrap_unconnected_send",
@@ -132,6 +133,8 @@ def tag_request_path(tag, tag_info, use_instance_ids):
 
 def _find_tag_index(tag):
     if "[" in tag:  # Check if is an array tag
+        if not tag.endswith("]"):
+            raise RequestError(f"Invalid array index: {tag}")
         t = tag[: len(tag) - 1]  # Remove the last square bracket
         inside_value = t[t.find("[") + 1 :]  # Isolate the value inside bracket
         index = inside_value.split(
